@@ -471,6 +471,15 @@ def check_scope_tables(model: Model, col, rule: str):
                                       f"`{unparse(r)[:50]}` rebinds a table that `{alias}` (built in {mname}) still refers to by its old object: lookups keep reading the old table", LOWER, r)
 
 
+def _expanded(model, cls, func):
+    """a handler read with the private helpers of its class in place (`self.__LowerLoopBody(body, ctx)`)"""
+    if func is None:
+        return None
+    from .sem import expand_helpers
+
+    return expand_helpers(model, cls, func)
+
+
 def run_templates(model: Model, col, G: Grammar, rule: str):
     lv = model.cls(LOWER, "LowerToIRVisitor")
     bi = model.cls(IR, "BranchInstruction").own_method("__init__")
@@ -513,7 +522,7 @@ def run_templates(model: Model, col, G: Grammar, rule: str):
     analysed = {}
     for kind, clsname, hname in constructs:
         roles = getter_roles(model, G, clsname)
-        h = lv.own_method(hname)
+        h = _expanded(model, lv, lv.own_method(hname))
         try:
             results = interpret(h, roles, bparams)
         except Unmodelled as e:
@@ -571,7 +580,7 @@ def run_templates(model: Model, col, G: Grammar, rule: str):
 
     # ---- break / continue / return handlers --------------------------------
     for hname, reg, other in (("v_BreakStatement", "REGBREAK", "REGCONTINUE"), ("v_ContinueStatement", "REGCONTINUE", "REGBREAK")):
-        h = lv.own_method(hname)
+        h = _expanded(model, lv, lv.own_method(hname))
         res = interpret(h, {}, bparams)
         for conds, stream, env in res:
             emits = [el[1] for el in stream if el[0] == "EMIT" and isinstance(el[1], Branch)]
@@ -580,7 +589,7 @@ def run_templates(model: Model, col, G: Grammar, rule: str):
             col.check(good, rule, f"{LOWER}::{hname}",
                       f"emits one unconditional branch and registers that branch with {reg[3:].lower()} of the innermost loop",
                       f"emits {emits}, registers {[(r[0], r[1]) for r in regs]}: expected one unconditional branch registered via {reg}", LOWER, h)
-    h = lv.own_method("v_ReturnStatement")
+    h = _expanded(model, lv, lv.own_method("v_ReturnStatement"))
     rroles = getter_roles_simple(model, "ReturnStatement")
     for conds, stream, env in interpret(h, rroles, bparams):
         kinds = [el[0] for el in stream]
